@@ -394,8 +394,10 @@ pub fn run(ctx: &Ctx) -> Collector {
     let t0 = std::time::Instant::now();
     // frontier entries: (real object, model, path)
     let mut frontier: Vec<(SvgOptions, Model, Vec<Op>)> = vec![(root.clone(), Model::default(), vec![])];
-    let seen: Mutex<HashMap<String, ()>> = Mutex::new(HashMap::new());
-    seen.lock().unwrap().insert(format!("{:?}", root), ());
+    // real state (Debug string) -> the model of the first program that reached it
+    let seen: Mutex<HashMap<String, Model>> = Mutex::new(HashMap::new());
+    seen.lock().unwrap().insert(format!("{:?}", root), Model::default());
+    let conflations = AtomicU64::new(0);
     let transitions = AtomicU64::new(0);
     let svg_calls = AtomicU64::new(0);
     let big = big_contents();
@@ -435,9 +437,33 @@ pub fn run(ctx: &Ctx) -> Collector {
                 }
                 if let Some(n) = n {
                     let key = format!("{:?}", n);
-                    let fresh = seen.lock().unwrap().insert(key, ()).is_none();
-                    if fresh {
-                        next.lock().unwrap().push((n, m, p2));
+                    let first = {
+                        let mut g = seen.lock().unwrap();
+                        match g.get(&key) {
+                            Some(first) => Some(first.clone()),
+                            None => {
+                                g.insert(key, m.clone());
+                                None
+                            }
+                        }
+                    };
+                    match first {
+                        None => next.lock().unwrap().push((n, m, p2)),
+                        // the implementation is in a state already reached by another program. If the model tells the
+                        // two programs apart, the implementation has merged two option histories that the native API
+                        // distinguishes: the export is judged against THIS program's model too, wherever the two
+                        // models render differently (de-duplication must not hide a path-dependent divergence)
+                        Some(first) if first != m => {
+                            for c in SMALL_CONTENTS {
+                                if first.native_svg(c) != m.native_svg(c) {
+                                    conflations.fetch_add(1, Ordering::Relaxed);
+                                    for (k, w) in compare_svg(&n, &m, c) {
+                                        col.violation((d as u64, (i * 100 + oi) as u64), format!("C17/{}", k), format!("after {} setter call(s) (a state also reached by a program with different final options): {}", p2.len(), w), case_json(&p2, Some(c)));
+                                    }
+                                }
+                            }
+                        }
+                        Some(_) => {}
                     }
                 }
             }
@@ -452,6 +478,7 @@ pub fn run(ctx: &Ctx) -> Collector {
     col.set("transitions", json!(transitions.load(Ordering::Relaxed)));
     col.set("traces_validated_against_impl", json!(transitions.load(Ordering::Relaxed)));
     col.set("qr_svg_comparisons", json!(svg_calls.load(Ordering::Relaxed)));
+    col.set("merged_state_rechecks", json!(conflations.load(Ordering::Relaxed)));
     col.set("search_depth_completed", json!(depth));
     col.space(json!({"name": "E2 option programs", "cases": svg_calls.load(Ordering::Relaxed), "states": states_total, "transitions": transitions.load(Ordering::Relaxed), "depth": depth, "alphabet": alpha.len(), "what": "BFS de-duplicated on the implementation's Debug state; every transition executed on the real object; qr_svg vs native in every state", "exhaustive": true, "wall_s": (t0.elapsed().as_secs_f64() * 100.0).round() / 100.0}));
     col.sample(case_json(&[alpha[1].clone(), alpha[20].clone(), alpha[27].clone()], Some("HELLO WORLD")));
